@@ -304,6 +304,12 @@ func (s *Session) Mail(from string, opts *smtp.MailOptions) error {
 			}
 			return s.endp.wrapErr(msgID, !opts.UTF8, "MAIL", err)
 		}
+
+		// s.mailFrom is already set by startDelivery to the normalized
+		// address. It should not be overwritten since limits are released
+		// using the domain from it.
+		s.opts = *opts
+		return nil
 	}
 
 	// Keep the MAIL FROM argument for deferred startDelivery.
